@@ -143,14 +143,13 @@ def run(ctx: Ctx):
             if nm == "log_softmax":
                 a = c.args[-1] if c.args else None
                 sd = u(a) if a is not None else None
-            if nm == "ge" and isinstance(c.func, ast.Attribute) and len(c.args) == 1:
-                bnd.append(c.args[0])
+        from sa.astutil import oriented as _or
+        tokn = kf.params[1].name
         for n_ in own_nodes(kf.node):
-            if isinstance(n_, ast.Compare) and len(n_.ops) == 1 and isinstance(n_.ops[0], (ast.GtE, ast.Lt)) \
-                    and isinstance(n_.comparators[0], ast.Name) and not isinstance(n_.left, ast.Constant) \
-                    and any(isinstance(d.value, ast.Subscript) and isinstance(d.value.value, ast.Attribute) and d.value.value.attr == "shape"
-                            for d in rdk.defs_of(n_.comparators[0])) and isinstance(n_.ops[0], ast.GtE):
-                bnd.append(n_.comparators[0])
+            if isinstance(n_, ast.Compare):
+                o_ = _or(n_, lambda e: isinstance(e, ast.Name) and e.id == tokn)
+                if o_ is not None and o_[0] == "ge":
+                    bnd.append(o_[2])
         dims = set()
         for b_ in bnd:
             vs = [d.value for d in rdk.defs_of(b_)] if isinstance(b_, ast.Name) else [b_]
@@ -171,9 +170,9 @@ def run(ctx: Ctx):
     okl = len(lens) == 1 and u(lens[0].value) == "_lens_from_eos(hyp, eos, dim) + 1"
     from sa.astutil import oriented
     ltgt = u(lens[0].targets[0]) if lens else None
-    lm = [n for n in own_nodes(kt.node) if isinstance(n, ast.Assign) and oriented(n.value, lambda e: u(e) == ltgt)]
+    lm = [n for n in own_nodes(kt.node) if isinstance(n, ast.Compare) and oriented(n, lambda e: u(e) == ltgt)]
     # position >= length  <=>  length <= position
-    okm = len(lm) == 1 and oriented(lm[0].value, lambda e: u(e) == ltgt)[0] == "le"
+    okm = len(lm) == 1 and oriented(lm[0], lambda e: u(e) == ltgt)[0] == "le"
     # def-use versions: the first eos and the out-of-vocabulary test are computed on the tokens as given; only the
     # gather index is the zeroed copy (zeroing first would turn out-of-vocabulary tokens into class 0 - an eos when
     # eos == 0 - and truncate the sequence there)
@@ -186,13 +185,18 @@ def run(ctx: Ctx):
             tgt = None
             if call_name(c) == "_lens_from_eos" and c.args:
                 tgt = c.args[0]
-            elif isinstance(c.func, ast.Attribute) and c.func.attr in ("lt", "ge") and isinstance(c.func.value, ast.Name) \
-                    and c.func.value.id == tok:
-                tgt = c.func.value
             if tgt is not None and any(isinstance(x, ast.Name) and x.id == tok for x in ast.walk(tgt)):
                 zeroed = any(isinstance(x.func, ast.Attribute) and x.func.attr.startswith("masked_fill")
                              for x in rdk.derives(tgt).calls())
                 (bad_uses if zeroed else raw_uses).append(c)
+        # the two range comparisons of the out-of-vocabulary test (tok < 0, tok >= V; canonical operator spelling)
+        for c in own_nodes(kf.node):
+            if isinstance(c, ast.Compare) and len(c.ops) == 1 and isinstance(c.ops[0], (ast.Lt, ast.GtE, ast.Gt, ast.LtE)):
+                for side in (c.left, c.comparators[0]):
+                    if isinstance(side, ast.Name) and side.id == tok:
+                        zeroed = any(isinstance(x.func, ast.Attribute) and x.func.attr.startswith("masked_fill")
+                                     for x in rdk.derives(side).calls())
+                        (bad_uses if zeroed else raw_uses).append(c)
         gath = [c for c in own_calls(kf.node) if isinstance(c.func, ast.Attribute) and c.func.attr == "gather"]
         idx_ok = False
         for c in gath:
@@ -206,24 +210,31 @@ def run(ctx: Ctx):
                f"token then ends the sequence instead of being ignored", rel, (bad_uses[0].lineno if bad_uses else kf.line),
                sample=[u(c)[:60] for c in raw_uses])
     col.ob("G12", "S2", f"{rel}::_sequence_log_probs_tensor::up-to-and-including-first-eos", okl and okm,
-           f"positions are dropped under `{u(lm[0].value) if lm else None}` with length `{u(lens[0].value) if lens else None}`; "
+           f"positions are dropped under `{u(lm[0]) if lm else None}` with length `{u(lens[0].value) if lens else None}`; "
            f"expected position >= (first eos index + 1)", rel, kt.line)
 
     # ---- S3 greedy CTC neutral elements --------------------------------------------------------------------------
     g = pkg.func(f"{MOD}::ctc_greedy_search")
     pmg = parent_map(g.node)
+    # per value of is_probs (tests on it folded, temporaries forward-substituted): the constant written over the frames
+    # beyond the valid length, and the reduction that follows
+    from sa.inline import Inliner
+    from sa.specialise import specialise
     table = {}
-    for n in own_nodes(g.node):
-        if isinstance(n, ast.Assign) and isinstance(n.value, ast.Call) and isinstance(n.value.func, ast.Attribute):
-            gs = guards_of(pmg, n)
-            pol = [p for t, p in gs if u(t) == "is_probs"]
-            if not pol:
-                continue
-            m = n.value.func.attr
-            if m == "masked_fill":
-                table.setdefault(pol[-1], {})["fill"] = u(n.value.args[1])
-            elif m in ("prod", "sum"):
-                table.setdefault(pol[-1], {})["reduce"] = m
+    for flag in (True, False):
+        gnode, _ = specialise(g.node, {"is_probs": flag})
+        inl_g = Inliner(gnode)
+        ent = {}
+        for c in ast.walk(gnode):
+            if isinstance(c, ast.Call) and isinstance(c.func, ast.Attribute):
+                if c.func.attr == "masked_fill" and len(c.args) == 2:
+                    v_ = inl_g.expand(c.args[1])
+                    if isinstance(v_, ast.Constant) and isinstance(v_.value, (int, float)) and not isinstance(v_.value, bool):
+                        ent["fill"] = str(float(v_.value))
+                elif c.func.attr in ("prod", "sum") and c.args and any(
+                        isinstance(x.func, ast.Attribute) and x.func.attr == "max" for x in inl_g.rd.derives(c.func.value).calls()):
+                    ent["reduce"] = c.func.attr
+        table[flag] = ent
     col.ob("G13", "S3", f"{rel}::ctc_greedy_search::neutral-elements", table == {True: {"fill": "1.0", "reduce": "prod"}, False: {"fill": "0.0", "reduce": "sum"}},
            f"frames beyond the valid length are filled / reduced as {table}; probabilities need (1.0, prod), log-"
            f"probabilities (0.0, sum)", rel, g.line, sample={str(k): v for k, v in table.items()})
@@ -256,10 +267,11 @@ def run(ctx: Ctx):
     col.ob("G13", "S4", f"{rel}::SequentialLanguageModelDistribution.log_prob::scores-with-the-walk's-eos",
            len(slp) == 1 and [u(a) for a in slp[0].args] == ["1", "self.random_walk.eos"],
            f"log_prob scores sequences with {[u(c) for c in slp]}; expected SequenceLogProbabilities(1, self.random_walk.eos)", rel, lp.line)
+    from sa.inline import Inliner as _Inl
     sm = pkg.func(f"{MOD}::SequentialLanguageModelDistribution.sample")
     pads = [c for c in own_calls(sm.node) if call_name(c).endswith("pad_sequence")]
     col.ob("G13", "S4", f"{rel}::SequentialLanguageModelDistribution.sample::pads-with-eos",
-           len(pads) == 1 and any(k.arg == "padding_value" and u(k.value) == "self.random_walk.eos" for k in pads[0].keywords),
+           len(pads) == 1 and any(k.arg == "padding_value" and _Inl(sm.node).text(k.value) == "self.random_walk.eos" for k in pads[0].keywords),
            "ragged samples are not padded with the walk's eos (padded samples would leave the support)", rel, sm.line)
     walks = [c for c in own_calls(sm.node) if u(c.func) == "self.random_walk"]
     okw = len(walks) == 2 and all(u(c.args[0]) == "self.initial_state.copy()" and u(c.args[2]) == "self.max_iters" for c in walks)
